@@ -216,6 +216,10 @@ def run(ctx):
             ctx.correspondence_broken("programs:driver-bad", m["bad"])
             continue
         upto = it["cut"]
+        for k, r in enumerate(it["impl"][:upto]):
+            if "raise" in r and str(r.get("msg", "")).startswith("LinAlgError"):
+                upto = k  # numerical failure of a LAPACK kernel (e.g. singular block): not modelled
+                break
         kw = dict(structure=True) if it["floaty"] else dict(drop_zero=True)
         ci = stream.canon_results(it["impl"][:upto], **kw)
         cm = stream.canon_results(m["results"][:upto], **kw)
@@ -239,9 +243,18 @@ def run(ctx):
     reqs = [{"id": i, "kind": "valid", "arr": t[3]} for i, t in enumerate(mon)]
     verdicts = ctx.model(reqs)
     ctx.monitors += len(reqs) if verdicts is not None else 0
+    tainted = {}  # program id -> names of arrays that are invalid or derived from invalid ones
     for i, t in enumerate(mon):
         it, nm, op, enc, pyv = t[:5]
         trig = t[5] if len(t) > 5 else set()
+        if it is not None:
+            # the property speaks about operations applied to *valid* arrays: results computed
+            # from an already invalid operand are not judged (the producer of that operand is)
+            bad = tainted.setdefault(it["case"]["id"], set())
+            src = [st for st in it["case"]["steps"] if nm in st["out"]]
+            if src and any(x in bad for x in src[0]["in"]):
+                bad.add(nm)
+                continue
         if verdicts is not None:
             v = verdicts[i]
             if "bad" in v:
@@ -254,6 +267,8 @@ def run(ctx):
             reason = pyv
         if lean_ok and pyv is None:
             continue
+        if it is not None:
+            tainted[it["case"]["id"]].add(nm)
         if (not lean_ok) and pyv is not None:
             case = dict(produced_by=op, name=nm, array=enc, reason=reason, python_reason=pyv,
                         program=(it["case"] if it else None))
